@@ -23,7 +23,11 @@ FAIL_UD = {'x5a5a': ('raises', ''), 'x6b6b': ('release_raises', 'done with the v
            'y2222': ('raises_import', 'No module named frobnicate'), 'y3333': ('none',)}
 
 
-def compare(ck, p, data, real, model, spec, cfg_every=True, label='pel', extra=None, allow_plugins=True, fixture_free=False):
+FAIL_ENV = dict(allow=True, ud=FAIL_UD, src={'xsrc': ('raises',), 'ysrc': ('echo',)}, callout={'x': ('raises',)})
+
+
+def compare(ck, p, data, real, model, spec, cfg_every=True, label='pel', extra=None, allow_plugins=True, fixture_free=False, env_kwargs=None):
+    """env_kwargs: the PluginEnv keyword arguments of the environment the case lives in (then separate interpreters get the same fixture modules)"""
     rp = {'op': 'parsePEL', 'pel': apel.describe(p) if p else None, 'data_hex': data.hex(), 'extra': extra}
     if apel.TOUCHED_SHIPPED[0]:
         # the input reached udparsers.oe500 / udparsers.m2c00 / srcparsers.oe500, which this check's environment (and hence the
@@ -42,8 +46,11 @@ def compare(ck, p, data, real, model, spec, cfg_every=True, label='pel', extra=N
         elif route_sample(ck, data, force=bool((extra or {}).get('force_routes'))):
             # the same document through the COMMAND LINE, by every route that shows one PEL: -f, -a, -j into an empty directory, and -j again
             # after the file was replaced in place by this PEL (same name, same entry id, older time stamp)
-            sub_ok = fixture_free and (ck.dist.get('command-line route -f with a stdout that takes ASCII only', 0) < 8 or bool((extra or {}).get('force_routes')))
-            for route, got in cli_routes(data, allow_plugins=allow_plugins, subprocess_too=sub_ok):
+            nk = 'cases of %s taken through separate interpreters' % label
+            sub_ok = (fixture_free or env_kwargs is not None) and (ck.dist.get(nk, 0) < 8 or bool((extra or {}).get('force_routes')))
+            if sub_ok:
+                ck.dist[nk] = ck.dist.get(nk, 0) + 1
+            for route, got in cli_routes(data, allow_plugins=allow_plugins, subprocess_too=sub_ok, env_kwargs=env_kwargs):
                 ck.count('command-line route %s' % route)
                 if got != spec[1]:
                     why = got if isinstance(got, str) else first_diff(got, spec[1])
@@ -74,7 +81,7 @@ def route_sample(ck, data, force=False):
     return True
 
 
-def cli_routes(data, allow_plugins=True, subprocess_too=False):
+def cli_routes(data, allow_plugins=True, subprocess_too=False, env_kwargs=None):
     """[(route, canonical document | text describing what went wrong)] for one PEL file"""
     import glob
     import os
@@ -106,9 +113,16 @@ def cli_routes(data, allow_plugins=True, subprocess_too=False):
         out.append(('-f', doc_of(so) if sx == 0 else 'exit %d: %s' % (sx, se[-200:])))
         if subprocess_too:
             # a separate interpreter (none of this run's fixture modules there) whose stdout takes ASCII only
-            so, se, sx = clirun.run_sub(['-f', f, '-E'] + P, env_extra={'PYTHONIOENCODING': 'ascii'})
+            if env_kwargs is not None:
+                import apel
+                so, se, sx = apel.fresh_cli(env_kwargs, ['-f', f, '-E'] + P, env_extra={'PYTHONIOENCODING': 'ascii'})
+            else:
+                so, se, sx = clirun.run_sub(['-f', f, '-E'] + P, env_extra={'PYTHONIOENCODING': 'ascii'})
             out.append(('-f with a stdout that takes ASCII only', doc_of(so) if sx == 0 else 'exit %d: %s' % (sx, se[-200:])))
-            so, se, sx = clirun.run_sub(['-f', f, '-E'] + P, optimise=True)
+            if env_kwargs is not None:
+                so, se, sx = apel.fresh_cli(env_kwargs, ['-f', f, '-E'] + P, optimise=True)
+            else:
+                so, se, sx = clirun.run_sub(['-f', f, '-E'] + P, optimise=True)
             out.append(('-f under python -O', doc_of(so) if sx == 0 else 'exit %d: %s' % (sx, se[-200:])))
         so, se, sx = clirun.run_main(['-p', d, '-a', '-E'] + P)
         out.append(('-a', doc_of(so, pick=0) if sx == 0 else 'exit %d: %s' % (sx, se[-200:])))
@@ -203,7 +217,7 @@ def run(tier, seed):
         env.uninstall()
     # ---- the same with parser modules that FAIL in every way (the call raises, returns nothing, the module cannot be loaded; an SRC parser
     # and a callout parser that raise): the failing section keeps its own bytes and whatever follows it is still decoded intact
-    env = apel.PluginEnv(allow=True, ud=FAIL_UD, src={'xsrc': ('raises',), 'ysrc': ('echo',)}, callout={'x': ('raises',)}).install()
+    env = apel.PluginEnv(**FAIL_ENV).install()
     try:
         pels = []
         for _ in range(500 if thorough else 120):
@@ -226,7 +240,7 @@ def run(tier, seed):
             real = apel.real_decode(data)
             ck.case(key=('failing-parsers', data), sample=None)
             ck.count('failing parser modules: %s' % real[0])
-            compare(ck, p, data, real, apel.dec_outcome(r), apel.dec_spec(r), label='pel_failing_parser')
+            compare(ck, p, data, real, apel.dec_outcome(r), apel.dec_spec(r), label='pel_failing_parser', env_kwargs=FAIL_ENV)
     finally:
         env.uninstall()
     return ck.finish(RULE, TRUSTED, ASSUME)
